@@ -8,6 +8,7 @@ import copy
 import errno
 
 from checks import chan_common as cc
+from checks import chan_random
 from checks import chan_model
 
 LEVEL = "model_checking"
@@ -66,6 +67,20 @@ def scenarios(thorough):
         out.append(cc.mk([P(1)], room=10, extra_client=[["read_after_block", 2, 20]], second=other(), drains=False,
                          faults={"send": [None] * 3 + [e]}, apps={1: {"chunks": [40, 40, 40], "cl": "none"}},
                          adj={"outbuf_high_watermark": 30}, name="producer parked, the I/O thread's send#4 fails %s" % errno.errorcode[e]))
+    # a spurious readiness report: recv finds nothing to read (EAGAIN) although the descriptor was reported readable
+    out.append(cc.mk([P(1)], workers=1, faults={"recv": [errno.EAGAIN]}, second=other(), name="recv#1 reports EAGAIN"))
+    out.append(cc.mk([P(1), P(2)], lookahead=1, workers=2, faults={"recv": [None, errno.EAGAIN]}, second=other(), split="each", name="recv#2 reports EAGAIN"))
+    # a file handed to wsgi.file_wrapper: whatever happens to the connection between the head and the hand-over of the
+    # file, the descriptor is released
+    for la in (0, 1):
+        for how in ("close", "reset"):
+            out.append(cc.mk([P(1)], lookahead=la, room=0, extra_client=[[how]], second=other(), drains=False,
+                             apps={1: {"chunks": [120], "filewrapper": True, "cl": "exact"}}, name="file_wrapper response, client %s, la=%d" % (how, la)))
+    for e in (errno.EPIPE, errno.EINVAL):
+        for nth in (0, 1):
+            out.append(cc.mk([P(1), P(2)], lookahead=1, second=other(), drains=False, faults={"send": [None] * nth + [e] * 4},
+                             apps={1: {"chunks": [120], "filewrapper": True, "cl": "none"}, 2: {"chunks": [40], "filewrapper": True}},
+                             adj={"send_bytes": 1}, name="file_wrapper responses, send#%d.. fail %s" % (nth + 1, errno.errorcode[e])))
     # faults while the connection is being set up
     for op in ("getsockopt", "setsockopt", "setblocking"):
         for e in (errno.EINVAL, errno.ECONNRESET, errno.EBADF):
@@ -90,6 +105,7 @@ def run(chk, replay=None):
     chan_model.model_check(chk, "C13", alone)
     n_pct, dfs = (600, 2500) if chk.thorough else (50, 250)
     cc.explore_and_validate(chk, "C13", scns, n_pct, dfs, bound=2, label="faults")
+    chan_random.explore(chk, "C13")
     chk.rule = ("cases = (fault placement x schedule): one injected errno on a send/recv/accept/getsockopt/setsockopt/setblocking call of connection 1, "
                 "%d placements, each explored with bounded DFS + sampled pre-emptions, a healthy second connection alongside; evaluations = distinct traces judged by TLC" % len(scns))
     chk.assumptions += ["descriptors are simulated: 'released' = close() called exactly once on the fake socket and buffer files closed", "one fault per scenario in the quick tier"]
